@@ -22,7 +22,7 @@ MTB = 24
 CHAIN = 6140
 
 MC_QUICK = ["MC_arch_q.cfg", "MC_gc_q.cfg", "MC_trusted.cfg"]
-MC_THOROUGH = ["MC_arch.cfg", "MC_gc.cfg", "MC_gc_p2.cfg", "MC_trusted.cfg", "MC_arch_p4.cfg"]
+MC_THOROUGH = ["MC_arch_t.cfg", "MC_gc_t.cfg", "MC_gc_p2.cfg", "MC_trusted_t.cfg", "MC_arch_p4.cfg"]
 # named deviations of the model: checked on HeaderHashesImpl (an invariant must catch them) ...
 DEVIATIONS = ["MC_gc_dev_GCLastPage.cfg"]
 DEVIATIONS_T = ["MC_trusted_dev_TrustedInit.cfg", "MC_arch_dev_ResetKeepsPages.cfg", "MC_arch_dev_ResetKeepsLRU.cfg",
@@ -210,9 +210,9 @@ def run_ext(ctx):
     ce_futs = [(pool.submit(ce, cfg), kind) for cfg, kind in CE]
     # 2. schedules generated by TLC
     worlds = []
-    n_each = {"arch": 2, "gc": 2, "trusted": 3} if q else {"arch": 10, "gc": 8, "trusted": 14}
+    n_each = {"arch": 2, "gc": 2, "trusted": 3} if q else {"arch": 30, "gc": 16, "trusted": 30}
     for i, kind in enumerate(("arch", "gc", "trusted")):
-        hs = ctx.tlc_sim("headerhashes", "HeaderHashesSim.tla", "Sim_%s.cfg" % kind, num=30 if q else 250, depth=70,
+        hs = ctx.tlc_sim("headerhashes", "HeaderHashesSim.tla", "Sim_%s.cfg" % kind, num=30 if q else 600, depth=70,
                          timeout=300, seed=ctx.seed * 10 + i)
         hs = dedupe(hs, 11)
         hs.sort(key=lambda h: (interesting(h), json.dumps(h)))
@@ -243,7 +243,7 @@ def run_ext(ctx):
         per, taken = {}, []
         for c in ces:
             t = c["hist"][0]["t"]
-            if per.get(t, 0) < (1 if q else 8):
+            if per.get(t, 0) < (1 if q else 12):
                 per[t] = per.get(t, 0) + 1
                 taken.append(c)
         for c in taken:
@@ -258,7 +258,7 @@ def run_ext(ctx):
     # 3. seeded random and hand-made worlds
     hw = hand_worlds()
     worlds += hw[:2] + hw[3:] if q else hw
-    for i in range(2 if q else 16):
+    for i in range(2 if q else 48):
         kind = ("arch", "gc", "trusted", "arch")[i % 4] if not q else ("arch", "trusted")[i % 2]
         worlds.append(random_world(rnd, kind, 14 if q else 22, 2300 if q else 6100))
     if not q:
@@ -269,12 +269,12 @@ def run_ext(ctx):
     for i, w in enumerate(worlds):
         w["wi"] = i
         w["probe"] = 1
-        w["cont_long"] = 5 if q else 3
+        w["cont_long"] = 5 if q else 2
     ind = os.path.join(ctx.work, "in-c02hh")
     os.makedirs(ind, exist_ok=True)
     json.dump({"n": CHAIN, "mtb": MTB, "worlds": worlds}, open(os.path.join(ind, "worlds.json"), "w"))
     # 4. the real node
-    res = ctx.go_driver("c02hdrhashes", "TestDriver", env={"VERIF_IN": ind, "VERIF_WORKERS": 6 if q else 8}, timeout=900 if q else 3000)
+    res = ctx.go_driver("c02hdrhashes", "TestDriver", env={"VERIF_IN": ind, "VERIF_WORKERS": 6 if q else 8}, timeout=900 if q else 5000)
     ctx.absorb(res)
     # join the model runs
     for f in mc_futs:
